@@ -54,7 +54,7 @@ MAX_REQ = {"quick": 20_000, "thorough": 60_000}
 def shards(tier: str, seed: int) -> list[dict[str, Any]]:
     if tier == "quick":
         return [{"n": 64, "part": i} for i in range(16)]
-    return [{"n": 230, "part": i} for i in range(32)]
+    return [{"n": 200, "part": i} for i in range(32)]
 
 
 def required_reach(tier: str) -> dict[str, int]:
